@@ -258,6 +258,11 @@ func (f *Frame) appendOp(c *ssa.CallCommon, pos token.Pos) Val {
 				resArr, resOff, ln, resOff, newLen, inplace, fresh, h1, h0, h1))
 			f.assume(implies(not(inplace), fmt.Sprintf("(forall ((i Int)) (! (=> (and (<= 0 i) (< i %s)) (= (select %s (elem %s i)) (select %s (elem %s (+ %s i))))) :pattern ((select %s (elem %s i)))))",
 				ln, h1, fresh, h0, arr, off, h1, fresh)))
+			// the same fact in the result's own coordinates (holds in place and for the fresh array):
+			// quantified specifications index the result as elem(resArr, resOff+i), and a trigger in
+			// exactly that shape avoids nested sums that E-matching cannot see through
+			f.assume(fmt.Sprintf("(forall ((k Int)) (! (=> (and (<= %s k) (< k (+ %s %s))) (= (select %s (elem %s k)) (select %s (elem %s (+ k (- %s %s)))))) :pattern ((elem %s k))))",
+				resOff, resOff, ln, h1, resArr, h0, arr, off, resOff, resArr))
 		}
 		// appended elements: element j of x
 		if !xIsStr {
